@@ -15,6 +15,14 @@ LEVEL = "exploration"
 MAXREPS = [1, 2, 10, 20, 127, 128, 255, 256, 32767, 32768, 65535, 65536, 2 ** 31 - 1]
 
 
+def g_oid_any(u, maxlen):
+    """Mostly short OIDs; sometimes one whose BER content needs a long-form length (>= 128 octets)."""
+    if u.below(8) == 0:
+        n = u.range(30, 128)
+        return (u.below(3), u.below(40)) + tuple((gen.g_arc(u) if u.bool() else 2 ** 32 - 1 - u.below(5)) for _ in range(n - 2))
+    return gen.g_oid(u, 2, maxlen)
+
+
 def g_call(u, cfg, highlevel=False):
     ops = ["get", "get_many", "getnext1", "getbulk1"]
     if cfg.version == "v1":
@@ -25,15 +33,15 @@ def g_call(u, cfg, highlevel=False):
         ops.append("fetch")
     op = u.choice(ops)
     if op == "get":
-        return ("get", rb.oid_text(gen.g_oid(u, 2, 24)))
+        return ("get", rb.oid_text(g_oid_any(u, 24)))
     if op == "get_many":
         n = u.range(1, 6) if u.below(4) else u.range(1, 60)
-        return ("get_many", [rb.oid_text(gen.g_oid(u, 2, 14)) for _ in range(n)])
+        return ("get_many", [rb.oid_text(g_oid_any(u, 14)) for _ in range(n)])
     if op == "getnext1":
-        return ("getnext1", rb.oid_text(gen.g_oid(u, 2, 16)))
+        return ("getnext1", rb.oid_text(g_oid_any(u, 16)))
     if op == "getbulk1":
         r = u.choice(MAXREPS) if u.below(3) else 1 + u.below(2 ** 31 - 1)
-        return ("getbulk1", rb.oid_text(gen.g_oid(u, 2, 16)), r)
+        return ("getbulk1", rb.oid_text(g_oid_any(u, 16)), r)
     if op == "fetch":
         return ("fetch1", rb.oid_text(gen.g_oid(u, 2, 16)))
     return ("refresh",)
@@ -148,8 +156,27 @@ def execute_nb(G, c):
     return info
 
 
+def fit_for_highlevel(cfg, st):
+    """The blocking drivers pair the k-th datagram with the k-th call, so every call must emit one: requests that
+    may not fit the buffer (C17's domain) are trimmed here."""
+    from checks.c17 import ref_request_size
+    call = st["call"]
+    if call[0] != "get_many":
+        return st
+    oids = list(call[1])
+    while len(oids) > 1 and ref_request_size(cfg, [rb.parse_oid_text(o) for o in oids], 4)[0] > 3900:
+        oids = oids[:len(oids) // 2]
+    if ref_request_size(cfg, [rb.parse_oid_text(o) for o in oids], 4)[0] > 3900:
+        oids = ["1.3.6.1.2.1.1.1.0"]
+    st = dict(st)
+    st["call"] = ("get_many", oids)
+    return st
+
+
 def execute_highlevel(G, c):
     cfg = c["cfgs"][0]
+    c = dict(c)
+    c["steps"] = [fit_for_highlevel(cfg, st) for st in c["steps"]]
     model = wire.SessionModel(cfg)
     calls = [st["call"] for st in c["steps"]]
     idx = {"k": 0}
